@@ -414,6 +414,26 @@ class World:
             exp = {k: (v, len(v)) for k, v in ref.items()}
             if seen != exp:
                 res.fail('q-get_objects_stream_and_meta', who + f'got keys {sorted(x[:6] for x in seen)} expected {sorted(x[:6] for x in exp)} (or wrong bytes/size)')
+        elif qkind == 'seekstreams':
+            # bulk streams, each one used with a seek relative to the end (compressed objects switch to their re-loosened copy)
+            with h.get_objects_stream_and_meta(allk) as trip:
+                seen = {}
+                for k, stream, meta in trip:
+                    n = len(ref.get(k, b''))
+                    stream.seek(-min(2, n), 2)
+                    tail = stream.read()
+                    stream.seek(0)
+                    seen[k] = (tail, stream.read())
+            exp = {k: (v[-min(2, len(v)):] if v else b'', v) for k, v in ref.items()}
+            # seeking in a compressed packed object re-loosens it (the documented cache): that copy is now part of the state
+            pl = self.config['loose_prefix_len']
+            for k in m.packed:
+                p = os.path.join(self.root, 'loose', k[:pl], k[pl:]) if pl else os.path.join(self.root, 'loose', k)
+                if os.path.exists(p):
+                    m.loose.add(k)
+            if seen != exp:
+                res.fail('q-seeking-streams', who + f'after seek(-2, 2) / seek(0): got {dict((k[:6], (t, len(a))) for k, (t, a) in seen.items())} '
+                                                    f'expected {dict((k[:6], (t, len(a))) for k, (t, a) in exp.items())}')
         elif qkind == 'list':
             listed = sorted(h.list_all_objects())
             if listed != sorted(ref):
